@@ -34,4 +34,25 @@ for v in ("Primary", "Alt"):
             txt += "".join(thm(v, p, fn) for fn, p in EXTRA[v])
         txt += f"end Cpu.GoTie.{v}\n"
         open(os.path.join(ROOT, f"Ops{v}{k + 1}.lean"), "w").write(txt)
+
+# ---- the addressing switch of Step(), outlined by the translator as Step_switch1: one lemma per addressing mode
+MODES = ("Absolute Absolute_X Absolute_Y Accumulator Immediate Immediate_flagM Immediate_flagX Implied DP DP_X DP_Y DP_X_Indirect DP_Indirect "
+         "DP_Indirect_Long DP_Indirect_Y DP_Indirect_Long_Y Absolute_X_Indirect Absolute_Indirect Absolute_Indirect_Long Absolute_Long "
+         "Absolute_Long_X BlockMove PC_Relative PC_Relative_Long Stack_Relative Stack_Relative_Indirect_Y Unknown").split()
+for v in ("Primary", "Alt"):
+    attr = "gotie_p" if v == "Primary" else "gotie_a"
+    n = (len(MODES) + 2) // 3
+    for k in range(3):
+        chunk = MODES[k * n:(k + 1) * n]
+        txt = (f"/-\nTie, addressing switch of Step(), {'cpu65c816' if v == 'Primary' else 'cpualt'} (part {k + 1} of 3): for each addressing mode the outlined switch\n"
+               f"`Step_switch1` computes the model's (addr, ea, pageCrossed); ea is compared modulo 2^24, which is all `Step` uses of it.\n"
+               f"Written by tools/mkgotie.py.\n-/\nimport SnesVerif.Cpu.GoTie.Flags{v}\n"
+               f"namespace Cpu.GoTie.{v}\nopen Cpu Cpu.GoPrim Cpu.GoTie\nset_option maxRecDepth 100000\nset_option linter.unusedSimpArgs false\n\n")
+        for m in chunk:
+            txt += (f"theorem sw_{m} :\n    (Gen.CpuGo.{v}.Step_switch1 .{m} false 0 0 0 0 >>= fun r => pure (r.1, r.2.1, r.2.2 % 16777216)) =\n"
+                    f"      (Cpu.addressing .{m} >>= fun r => pure (r.2.2, r.1, r.2.1 % 16777216)) := by\n  funext s\n"
+                    f"  simp only [Gen.CpuGo.{v}.Step_switch1, Cpu.addressing, {attr}]\n"
+                    f"  gorun [srcX, srcY, lin_go, zx_toNat, and_mask24, mod32_24, lin_mod32]\n\n")
+        txt += f"end Cpu.GoTie.{v}\n"
+        open(os.path.join(ROOT, f"Switch{v}{k + 1}.lean"), "w").write(txt)
 print("written")
